@@ -77,6 +77,50 @@ def programs():
         else:
             progs[f"MosStack_{un}"] = lambda u=u: MosStack(unit=u(), nser=3)
             progs[f"Series_{un}"] = lambda u=u: Series(unit=u(), nser=2, conns=("d", "s"))
+    # scalar-only parameter classes whose readable name is too long (hashed names), with string values
+    @h.paramclass
+    class LongP:
+        label = h.Param(dtype=str, desc="label", default="x")
+        other = h.Param(dtype=str, desc="other", default="")
+        n = h.Param(dtype=int, desc="n", default=1)
+        f = h.Param(dtype=float, desc="f", default=0.5)
+
+    @h.generator
+    def GL(params: LongP) -> h.Module:
+        mod = h.Module()
+        mod.p = h.Port(width=params.n)
+        return mod
+
+    def long_tops():
+        tops = [GL(label="a" * 130), GL(label="b" * 60, other="c d=" * 20, n=3), GL(label="short"), GL(label="é" * 127, f=1e-9), GL(other="q" * 200, n=2)]
+        top = h.Module(name="LongTop")
+        for k, t in enumerate(tops):
+            top.add(t(p=top.add(h.Signal(width=t.p.width), name=f"s{k}")), name=f"i{k}")
+        return top
+
+    progs["long_scalar_names"] = long_tops
+
+    # generators with caching disabled: a library cell that earlier, unrelated designs of the same process have used too
+    @h.paramclass
+    class BufP:
+        stages = h.Param(dtype=int, desc="stages", default=2)
+
+    def buf_body(params: BufP) -> h.Module:
+        mod = h.Module()
+        mod.a, mod.z = h.Input(), h.Output()
+        return mod
+
+    buf_body.__name__ = "Buf"
+    Buf = h.generator(enable_cache=False)(buf_body)
+
+    def uncached_top():
+        top = h.Module(name="UncachedTop")
+        top.a, top.z = h.Signal(), h.Signal()
+        top.b = Buf(stages=2)(a=top.a, z=top.z)
+        return top
+
+    progs["uncached_generator"] = uncached_top
+    progs["uncached_generator_direct"] = lambda: Buf(stages=3)
     progs["tops_list"] = lambda: [G(unit=Cell), Series(unit=h.R(r=1), nser=2, conns=("p", "n")), Cell, G(unit=h.C(c=1), names=("q",))]
     progs["tops_list_rev"] = lambda: [Cell, Series(unit=h.R(r=2), nser=2, conns=("p", "n")), G(unit=Cell, dims=(3, 4))]
     return progs
@@ -95,6 +139,15 @@ def main():
             junk.add(h.Signal(name=f"j{k}", width=noise.randint(1, 4)))
         if noise.random() < 0.5:
             h.elaborate(junk)
+        # ... and earlier designs of the same process: some other case (or this very one), built from scratch and exported, a few times
+        for _ in range(noise.choice([0, 0, 1, 1, 2, 3])):
+            run_case(cases[noise.randrange(len(cases))] if noise.random() < 0.5 else c)
+        out.append(run_case(c))
+    print(json.dumps(out))
+
+
+def run_case(c):
+    if True:
         res = {}
         try:
             if "program" in c:
@@ -118,8 +171,7 @@ def main():
                     res[fmt] = "raise:" + type(ex).__name__
         except Exception as ex:  # noqa
             res["error"] = type(ex).__name__ + ":" + str(ex)[-80:]
-        out.append(res)
-    print(json.dumps(out))
+        return res
 
 
 if __name__ == "__main__":
